@@ -413,6 +413,18 @@ def _sequence_level_values(ctx, seq, ms):
             continue
         n = min(len(lib_a), len(ref_a))
         peak_a, peak_d = max(1e-9, float(np.abs(plain_a).max())), max(1e-9, float(np.abs(plain_d).max()))
+        # the filter preserves the integral: over the whole channel (fall time included) the modulated amplitude carries the area of
+        # what was scheduled, whatever mix of ordinary pulses and EOM blocks it is made of (the two ends lose < 0.6 % of the last / first pulse)
+        area_in, area_out = float(plain_a.sum()), float(lib_a.sum())
+        slow_eom = bool(ch.eom_blocks) and p["eom"] and p["eom"]["rise"] > p["rise"]  # not demanded there, see DESIGN C.4
+        if area_in > 0 and not slow_eom:
+            ctx.act["sequence_level_area_compared"] += 1
+            if len(ch.eom_blocks) > 1:
+                ctx.act["sequence_level_area_compared:several-eom-blocks"] += 1
+            edge = 0.012 * peak_a * max(1.0, float(p["rise"]))  # what may be cut at the two ends of the sampled window
+            if abs(area_out - area_in) > 2e-3 * area_in + edge:
+                out.append((f"C14:sequence-modulation-does-not-preserve-the-area:{'eom' if ch.eom_blocks else 'std'}",
+                            f"{name}: scheduled area {area_in:.6g}, modulated {area_out:.6g} ({100 * (area_out / area_in - 1):+.2f} %), EOM blocks {[(b[3], b[4]) for b in ch.eom_blocks]}"))
         if not ch.eom_blocks:
             ctx.act["sequence_level_values:no-eom"] += 1
             if np.abs(lib_a[:n] - ref_a[:n]).max() > 1e-9 * max(1.0, peak_a):
@@ -475,6 +487,13 @@ def run(tier, seed):
          A.render(l=None, eom=True), 2),
         (corner("unit8", prefix=[("declare", "g", "rydberg_global")], qubits=2, name="eom-channel-bw-240", bw=240, eom=dict(mod_bandwidth=40)),
          A.render(l=None, eom=True), 2),
+        # a channel with SEVERAL EOM blocks (closed and re-opened; split by a change of setpoint): every block has its own falling edge
+        (corner("real", prefix=[("declare", "g", "rydberg_global"), ("enable_eom", "g", 2.0, 0.5, -10.0, False), ("eom_pulse", "g", 52, 0.5, 0.0, "no-delay", False),
+                                ("disable_eom", "g", False)], qubits=2, name="second-eom-block-after-a-closed-one"),
+         A.render(l=None, eom=True), 3),
+        (corner("real", prefix=[("declare", "g", "rydberg_global"), ("enable_eom", "g", 2.0, 0.5, -10.0, False), ("eom_pulse", "g", 100, 0.0, 0.0, "no-delay", False)],
+                qubits=2, name="eom-block-split-by-a-new-setpoint"),
+         A.render(l=None, eom=True) + [("modify_eom", "g", 1.0, 0.0, 5.0, False), ("modify_eom", "g", 3.0, -1.0, -20.0, True)], 3),
     ]
     cov = seqx.run_plan(res, plan, MONITORS)
     cov["evaluations"] = len(cases) + cov["transitions"]
